@@ -5,6 +5,7 @@ import (
 	"errors"
 	"fmt"
 	"io"
+	"reflect"
 	"strings"
 	"unicode/utf8"
 
@@ -208,13 +209,23 @@ type c01E2Case struct {
 	Schema  string `json:"schema"`
 	Input   string `json:"input"`
 	Variant int    `json:"driver_variant"` // 0 canonical loop; 1 no RawRecord; 2 RawRecord twice; 3 RawRecord before first Read
+	// InputB replaces Input when the input is not valid UTF-8 (a JSON replay file cannot hold it as a string)
+	InputB []byte `json:"input_bytes,omitempty"`
+	// Externals are the transform's external properties; WantFirst, if set, is the JSON value the first
+	// Read must return
+	Externals map[string]string `json:"externals,omitempty"`
+	WantFirst *string           `json:"want_first_record,omitempty"`
 }
 
 func c01RunE2(schema omniparser.Schema, cs c01E2Case) (sig, detail string, nreads int, outcome string) {
 	var tr omniparser.Transform
 	var err error
 	if pv, site := core.Safe(func() {
-		tr, err = schema.NewTransform("in", strings.NewReader(cs.Input), &transformctx.Ctx{})
+		in := cs.Input
+		if cs.InputB != nil {
+			in = string(cs.InputB)
+		}
+		tr, err = schema.NewTransform("in", strings.NewReader(in), &transformctx.Ctx{ExternalProperties: cs.Externals})
 	}); pv != nil {
 		return "", "panic left to C03: " + site, 0, "panic"
 	}
@@ -260,8 +271,17 @@ func c01RunE2(schema omniparser.Schema, cs c01E2Case) (sig, detail string, nread
 					return
 				}
 				if !utf8.Valid(b) || !json.Valid(b) {
-					res.sig, res.detail, _, _ = bad("record-not-valid-utf8-json", string(b))
+					res.sig, res.detail, _, _ = bad("record-not-valid-utf8-json", fmt.Sprintf("%q", b))
 					return
+				}
+				if nreads == 0 && cs.WantFirst != nil {
+					var got, want interface{}
+					json.Unmarshal(b, &got)
+					json.Unmarshal([]byte(*cs.WantFirst), &want)
+					if !reflect.DeepEqual(got, want) {
+						res.sig, res.detail, _, _ = bad("record-value-differs", fmt.Sprintf("got %q want %q", b, *cs.WantFirst))
+						return
+					}
 				}
 			case b != nil:
 				res.sig, res.detail, _, _ = bad("bytes-returned-with-error", fmt.Sprintf("(%q, %v)", b, err))
@@ -307,7 +327,7 @@ func init() {
 	core.Register(&core.Prop{
 		ID:    "C01",
 		Level: "model_checking",
-		Rule:  "E1: the real omniparser.Transform over a scripted caller-supplied ingester: every ingester answer sequence over {record A, record B, continuable error, two fatal errors, EOF, bytes+fatal error, bytes+continuable error} up to length 4 x every caller history over {Read, RawRecord(+Raw/Checksum)} up to length 7, each step checked against the contract automaton (states = distinct (latched?, last Read failed?, ingester position) reached, transitions = calls), plus the differential 'history with RawRecord calls removed gives the same Read results'; E2: the seven real readers on every token string up to length 5 over per-format alphabets for every minimal schema, under four driver variants (Read;RawRecord / no RawRecord / RawRecord twice / RawRecord before the first Read), 3 extra Reads after the terminal result, checksum recomputed from the raw node",
+		Rule:  "E1: the real omniparser.Transform over a scripted caller-supplied ingester: every ingester answer sequence over {record A, record B, continuable error, two fatal errors, EOF, bytes+fatal error, bytes+continuable error} up to length 4 x every caller history over {Read, RawRecord(+Raw/Checksum)} up to length 7, each step checked against the contract automaton (states = distinct (latched?, last Read failed?, ingester position) reached, transitions = calls), plus the differential 'history with RawRecord calls removed gives the same Read results'; E2: the seven real readers on every token string up to length 5 over per-format alphabets for every minimal schema, under four driver variants (Read;RawRecord / no RawRecord / RawRecord twice / RawRecord before the first Read), 3 extra Reads after the terminal result, checksum recomputed from the raw node; E3: 11 FINAL_OUTPUT shapes (scalar field, const-less concat, object, array, no_trim, typed, external, javascript, copy) x csv / JSON / XML / EDI input x a value containing each single byte 0x00-0xFF and each of 24 multi-byte sequences (valid runes incl. U+2028, non-characters, non-BMP; truncated, overlong, surrogate and lone-continuation sequences): every record valid UTF-8 JSON and, where defined, equal to the value with invalid bytes replaced by U+FFFD",
 		Assumptions: []string{
 			"E1 assumes a well-behaved ingester in the sense of the interface documentation, except that it may return bytes together with an error",
 			"E2 inputs are token strings, not all byte strings; panics and non-termination are C03's subject and are not double-reported here",
@@ -418,6 +438,32 @@ func init() {
 					}
 				}
 			}
+			// ---- E3: every output shape x every byte (and byte sequence) inside a value ----
+			for _, cs := range c01ShapeCases() {
+				idx++
+				if !c.Mine(idx) {
+					continue
+				}
+				cs := cs
+				schema, err, _ := hx.NewSchema("s", cs.Schema)
+				if err != nil {
+					c.HarnessError("output-shape schema rejected: " + cs.Item + ": " + err.Error())
+					continue
+				}
+				c.Begin(func() interface{} { return map[string]interface{}{"e2": cs} })
+				sig, detail, nreads, outcome := c01RunE2(schema, cs)
+				c.Count("transitions", int64(nreads))
+				c.Count("traces_validated_against_impl", 1)
+				c.Count("output_shape_cases", 1)
+				c.Eval("E3|" + cs.Item + "|" + outcome)
+				if sig != "" {
+					c.Violation(sig, detail, map[string]interface{}{"e2": cs}, func() string {
+						sc, _, _ := hx.NewSchema("s", cs.Schema)
+						s, _, _, _ := c01RunE2(sc, cs)
+						return s
+					})
+				}
+			}
 		},
 		Replay: func(raw json.RawMessage) (string, string) {
 			var w struct {
@@ -448,4 +494,125 @@ func init() {
 			return "harness:bad-replay", "neither e1 nor e2"
 		},
 	})
+}
+
+// c01ReplaceInvalid is what encoding/json does to a string: every invalid byte becomes U+FFFD.
+func c01ReplaceInvalid(v string) string {
+	var b strings.Builder
+	for i := 0; i < len(v); {
+		r, w := utf8.DecodeRuneInString(v[i:])
+		if r == utf8.RuneError && w == 1 {
+			b.WriteRune(utf8.RuneError)
+		} else {
+			b.WriteString(v[i : i+w])
+		}
+		i += w
+	}
+	return b.String()
+}
+
+func c01ShapeCases() []c01E2Case {
+	var seqs []string
+	for b := 0; b < 256; b++ {
+		seqs = append(seqs, string([]byte{byte(b)}))
+	}
+	seqs = append(seqs, "\u00e9", "\u2028", "\u2029", "\ufffd", "\ufffe", "\uffff", "\U0001F600", "\U000E0001", "\U0010FFFF", "\u0085", "\u00a0", "\u200b", "\ufeff",
+		"\xc3", "\xe4\xb8", "\xf0\x9f\x98", "\xc0\xaf", "\xe0\x80\xaf", "\xed\xa0\x80", "\xed\xb0\x80", "\xf4\x90\x80\x80", "\x80\x80", "\xfe\xff", "\xef\xbb")
+	hdr := func(f string) string {
+		return `"parser_settings":{"version":"omni.2.1","file_format_type":"` + f + `"}`
+	}
+	type shape struct {
+		name, decl string
+		wrap       func(v string) interface{} // expected output value given the field value; nil = validity only
+		ext        bool
+	}
+	id := func(v string) interface{} { return v }
+	shapes := []shape{
+		{"scalar-field", `{"xpath":"v"}`, id, false},
+		{"scalar-field-no-trim", `{"xpath":"v","no_trim":true}`, id, false},
+		{"scalar-concat", `{"custom_func":{"name":"concat","args":[{"xpath":"v"}]}}`, id, false},
+		{"scalar-concat-const", `{"custom_func":{"name":"concat","args":[{"const":"<"},{"xpath":"v"},{"const":">"}]}}`, func(v string) interface{} { return "<" + v + ">" }, false},
+		{"object", `{"object":{"k":{"xpath":"v"}}}`, func(v string) interface{} { return map[string]interface{}{"k": v} }, false},
+		{"array", `{"array":[{"xpath":"v"},{"xpath":"v"}]}`, func(v string) interface{} { return []interface{}{v, v} }, false},
+		{"nested", `{"object":{"o":{"object":{"a":{"array":[{"xpath":"v"}]}}}}}`, func(v string) interface{} {
+			return map[string]interface{}{"o": map[string]interface{}{"a": []interface{}{v}}}
+		}, false},
+		{"scalar-external", `{"external":"p"}`, id, true},
+		{"object-external", `{"object":{"k":{"external":"p"}}}`, func(v string) interface{} { return map[string]interface{}{"k": v} }, true},
+		{"scalar-javascript", `{"custom_func":{"name":"javascript","args":[{"const":"x"},{"const":"x"},{"xpath":"v"}]}}`, nil, false},
+		{"scalar-upper", `{"custom_func":{"name":"upper","args":[{"xpath":"v"}]}}`, nil, false},
+	}
+	var out []c01E2Case
+	for _, sh := range shapes {
+		for _, format := range []string{"csv", "json", "xml", "edi"} {
+			var schema string
+			switch format {
+			case "csv":
+				schema = `{` + hdr("csv") + `,"file_declaration":{"delimiter":",","data_row_index":1,"columns":[{"name":"v"}]},"transform_declarations":{"FINAL_OUTPUT":` + sh.decl + `}}`
+			case "json":
+				schema = `{` + hdr("json") + `,"transform_declarations":{"FINAL_OUTPUT":` + strings.Replace(sh.decl, `"xpath":"v"`, `"xpath":"v"`, -1) + `}}`
+			case "xml":
+				schema = `{` + hdr("xml") + `,"transform_declarations":{"FINAL_OUTPUT":` + sh.decl + `}}`
+			case "edi":
+				schema = `{` + hdr("edi") + `,"file_declaration":{"segment_delimiter":"~","element_delimiter":"*","segment_declarations":[{"name":"S","is_target":true,"max":-1,"elements":[{"name":"v","index":1}]}]},"transform_declarations":{"FINAL_OUTPUT":` + sh.decl + `}}`
+			}
+			for si, seq := range seqs {
+				if sh.ext && format != "csv" {
+					continue
+				}
+				val := "a" + seq + "b"
+				var in []byte
+				expectValue := true
+				switch format {
+				case "csv":
+					in = []byte(`"` + strings.Replace(val, `"`, `""`, -1) + `"` + "\n")
+				case "json":
+					var b strings.Builder
+					b.WriteString(`{"v":"`)
+					for i := 0; i < len(val); i++ {
+						ch := val[i]
+						switch {
+						case ch == '"' || ch == '\\':
+							b.WriteByte('\\')
+							b.WriteByte(ch)
+						case ch < 0x20:
+							fmt.Fprintf(&b, "\\u%04x", ch)
+						default:
+							b.WriteByte(ch)
+						}
+					}
+					b.WriteString(`"}`)
+					in = []byte(b.String())
+				case "xml":
+					esc := strings.NewReplacer("&", "&amp;", "<", "&lt;", ">", "&gt;").Replace(val)
+					in = []byte(`<r><v>` + esc + `</v></r>`)
+					// the XML decoder rejects invalid UTF-8 and most control characters and normalises CR: validity only
+					expectValue = utf8.ValidString(val) && (len(seq) > 1 || seq[0] >= 0x20 || seq[0] == '\t' || seq[0] == '\n')
+					if strings.ContainsAny(seq, "\ufffe\uffff") {
+						expectValue = false
+					}
+				case "edi":
+					in = []byte("S*" + val + "~")
+					if strings.ContainsAny(seq, "*~") {
+						expectValue = false
+					}
+				}
+				cs := c01E2Case{Item: "shape/" + sh.name + "/" + format, Schema: schema, InputB: in, Variant: si % 4}
+				if sh.ext {
+					cs.Externals = map[string]string{"p": val}
+				}
+				if sh.wrap != nil && expectValue {
+					want := val
+					if !sh.ext || true {
+						want = c01ReplaceInvalid(val)
+					}
+					wb, _ := json.Marshal(sh.wrap(want))
+					ws := string(wb)
+					cs.WantFirst = &ws
+				}
+				out = append(out, cs)
+			}
+		}
+	}
+	return out
 }
